@@ -63,7 +63,7 @@ M = {
  "setup_cmd": f"{PY} /verif/check setup",
  "hooks": {
    "guard": "PYMODES_VERIF",
-   "enable": "no source hook exists: every seam is reachable from outside (module attributes pyModeS.extra.tcpclient.zmq/.time, pyModeS.streamer.decode.time, pyModeS.extra.rtlreader.time, a fake rtlsdr module in sys.modules, pipe/queue/flag arguments of run()). Checks put /repo/src first on sys.path and import the working tree directly.",
+   "enable": "no source hook exists: every seam is reachable from outside (module attributes pyModeS.extra.tcpclient.zmq/.time, pyModeS.streamer.decode.time/.os/.open/.datetime, pyModeS.extra.rtlreader.time/.read_size/.buffer_size, a fake rtlsdr module in sys.modules, pipe/queue/flag arguments of run(), threading.Thread.start wrapped while a run is active). Checks put /repo/src first on sys.path and import the working tree directly.",
    "baseline_off_cmd": "cd /repo && /venv/bin/python -m pytest -ra -q -p no:cacheprovider --timeout=900 --continue-on-collection-errors",
    "source_commits": [],
    "add_only": True,
